@@ -74,13 +74,23 @@ def run(chk, replay=None):
     r = chk.tlc('GriddedData', 'MCbug_GriddedData.cfg', expect='any', coverage=False, count_states=False)
     chk.control('model with cumulative scaling refuted', r.violated == 'ScaleAbsolute')
 
-    def check_file(case, ti, mi, swap):
+    keep_alive = []
+
+    def check_file(case, ti, mi, swap, then_load=None):
         tab, magtab = TABLE[ti % len(TABLE)], MAGS[mi % len(MAGS)]
         write_dat(path, case, tab, magtab, swap)
         fc = guarded(csep.load_gridded_forecast, path, swap_latlon=swap) if swap else guarded(csep.load_gridded_forecast, path)
         chk.count()
         if isinstance(fc, Raised):
             return {'why': 'load raised', 'err': repr(fc)}
+        if then_load is not None:
+            # a second file on the same cells with other magnitude bins is loaded (and kept) before the first forecast is
+            # examined: what one file says must not leak into the forecast of another
+            write_dat(path, case, tab, MAGS[then_load % len(MAGS)], swap)
+            other = guarded(csep.load_gridded_forecast, path, swap_latlon=swap) if swap else guarded(csep.load_gridded_forecast, path)
+            chk.count()
+            keep_alive.append(other)
+            del keep_alive[:-4]
         x0, y0, dh = tab
         m0, dm = magtab
         nm = case['nm']
@@ -101,6 +111,10 @@ def run(chk, replay=None):
             q = case['cmap'][j][i]
             pts = [(lon0, lat0), (lon0 + 0.5 * dhf, lat0 + 0.5 * dhf), (lon0 + 0.93 * dhf, lat0 + 0.07 * dhf), (lon0, lat0 + 0.93 * dhf)]
             mgs = [mlo, mlo + 0.5 * dmf, mlo + 0.93 * dmf] + ([mlo + 3.7] if k == nm else [])
+            if k < nm:
+                # just below the next magnitude edge is still this row's bin (beyond the documented round-off band of ~1e-12)
+                mhi = float(dec(m0, k, dm))
+                mgs += [mhi - 1e-6, mhi - 3e-9]
             if row['flag'] == 0:
                 m_ = guarded(fc.region.get_masked, [pts[1][0]], [pts[1][1]])
                 g = guarded(fc.get_rates, [pts[1][0]], [pts[1][1]], [mgs[0]])
@@ -141,7 +155,7 @@ def run(chk, replay=None):
     if replay:
         d = replay['detail']
         if 'case' in d:
-            bad = check_file(d['case'], d['ti'], d['mi'], d['swap'])
+            bad = check_file(d['case'], d['ti'], d['mi'], d['swap'], d.get('then_load'))
             if bad:
                 chk.violation(replay['signature'], dict(d, mismatch=bad))
         chk.sample({'replayed': d.get('case', d)})
@@ -151,14 +165,14 @@ def run(chk, replay=None):
     for ci, case in enumerate(cases):
         reps = [(ci, ci, False), (ci + 3, ci + 1, True)] if quick else [(ci + t, ci + t, t % 2 == 1) for t in range(4)]
         for (ti, mi, swap) in reps:
-            bad = check_file(case, ti, mi, swap)
+            bad = check_file(case, ti, mi, swap, then_load=(mi + 1 if (ci + ti) % 3 == 0 else None))
             ncell = len({tuple(r_['cell']) for r_ in case['file']})
             if ncell < case['nx'] * case['ny'] or any(r_['flag'] == 0 for r_ in case['file']) or case['nm'] > 1:
                 chk.nontrivial('%d|%d|%d|%s' % (ci, ti % len(TABLE), mi % len(MAGS), swap))
             if bad:
                 shape = 'single-row-or-column' if min(case['nx'], case['ny']) == 1 else 'general'
                 chk.violation('file:%s:%s:%s' % (bad['why'], 'swap_latlon' if swap else 'lonlat', shape),
-                              {'case': case, 'ti': ti, 'mi': mi, 'swap': swap, 'mismatch': bad})
+                              {'case': case, 'ti': ti, 'mi': mi, 'swap': swap, 'then_load': (mi + 1 if (ci + ti) % 3 == 0 else None), 'mismatch': bad})
             else:
                 okc += 1
         if ci == 40:
